@@ -12,12 +12,12 @@ PROP = {
             "earlier regions), then sections() and get8/permissions/get32/get sweeps over the hull of the history +-6; "
             "non-trivial = at least two writes of which one touches an earlier region (overlap, nesting, adjacency, empty inside); distinct by endianness + operation list",
     "trusted_base": [KERNEL, HARNESS_TB],
-    "assumptions": ["u64 additions are overflow-checked (harness build profile); a region's exclusive end a+len is below 2^64"],
+    "assumptions": ["written regions do not wrap the address space: a + len <= 2^64 (the last byte may be written)"],
     "partial": [],
     "level_text": "Unbounded Coq theorems (all histories, all addresses below 2^64, any permission type) that the Gallina transcription of "
                   "backing::Memory refines a last-writer-wins byte/permission map, keeps its sections sorted, disjoint and non-empty, reads wide values "
                   "bytewise across sections without panicking, and confines 32-bit accesses to one region; plus an in-kernel differential tie of that "
                   "transcription to the Rust code on generated histories (model = observed, and observed = specification).",
     "level_note": "Trusted: Coq kernel + vm_compute; the harness/pretty-printer; the model is hand-written and tied to the code differentially, not by translation. "
-                  "Regions whose exclusive end is 2^64 or more (the last byte of the address space) are outside the theorems: the code's u64 end arithmetic overflows there.",
+                  "Regions that wrap the address space (a + len > 2^64) are outside the theorems and the oracle; regions ending exactly at 2^64 are inside.",
 }
